@@ -291,6 +291,22 @@ def run(ctx, P, args):
         replay_case = json.load(open(args.replay if os.path.isabs(args.replay) else os.path.join(VERIF, args.replay)))
     P["run"](ctx, replay_case)
     step_corpus(ctx)
+    # source drift: when the modelled source of /repo is not the pinned one (somebody changed the code), the quick tier samples a
+    # second time under another seed - unless a failing input is already in hand.  On the pinned tree nothing changes.
+    drift = source_drift()
+    ctx.stats["source_files_differing_from_pinned"] = drift
+    if drift and ctx.tier == "quick" and replay_case is None and not any(v["kind"] == "concrete" for v in ctx.violations) \
+            and time.time() - ctx.t0 < 240:
+        ctx.note(f"source differs from the pinned tree in {len(drift)} file(s) ({', '.join(drift[:3])}): second sampling pass")
+        first = {k: ctx.stats.get(k) for k in ("evaluations", "distinct_nontrivial", "distribution")}
+        seed0 = ctx.seed
+        ctx.seed = seed0 + 7919
+        try:
+            P["run"](ctx, None)
+        finally:
+            ctx.seed = seed0
+        ctx.stats["first_pass"] = first
+        ctx.stats["evaluations"] = int(ctx.stats.get("evaluations", 0)) + int(first.get("evaluations") or 0)
 
     known = [k for k in load_known() if k.get("property") == ctx.prop and k.get("kind") == "finding"]
     new_viol = []
@@ -338,6 +354,23 @@ def run(ctx, P, args):
     return rc
 
 
+def source_drift():
+    """files of /repo's package whose content differs from pinned/source_hashes.json (relative paths)"""
+    repo = os.environ.get("VERIF_REPO", "/repo")
+    root = os.path.join(repo, "src", "tpmstream")
+    try:
+        pinned = json.load(open(os.path.join(VERIF, "pinned", "source_hashes.json")))
+    except Exception:  # noqa
+        return []
+    now = {}
+    for d, _, fs in os.walk(root):
+        for f in fs:
+            if f.endswith(".py"):
+                pth = os.path.join(d, f)
+                now[os.path.relpath(pth, root)] = hashlib.sha256(open(pth, "rb").read()).hexdigest()
+    return sorted(k for k in set(now) | set(pinned) if now.get(k) != pinned.get(k))
+
+
 def write_evidence(ctx, P, proof_ok, nviol):
     n_ob = len(P["theorems"])
     discharged = 0
@@ -352,6 +385,7 @@ def write_evidence(ctx, P, proof_ok, nviol):
         "trusted_base": TRUSTED_BASE + P.get("trusted_extra", []),
         "theorems": {t: ctx.audit.get("axioms", {}).get(t) for t in P["theorems"]},
         "layout_entries_differing_from_pinned": len(ctx.layout_diff),
+        "source_files_differing_from_pinned": ctx.stats.get("source_files_differing_from_pinned", []),
         "evaluations": int(ctx.stats.get("evaluations", 0)),
         "distinct_nontrivial": int(ctx.stats.get("distinct_nontrivial", 0)),
         "rule": ctx.stats.get("rule", ""),
